@@ -604,12 +604,12 @@ def _extend(it, key, raw, args):
     return UNIT
 
 
-@model('iter::once')
+@model('iter::once', 'once')
 def _once(it, key, raw, args):
     return ListIter([args[0]])
 
 
-@model('iter::empty')
+@model('iter::empty', 'empty')
 def _empty(it, key, raw, args):
     return ListIter([])
 
